@@ -757,7 +757,7 @@ static Boolean GetSymSection(char* Name, LongInt* Erg, tStrComp const* pUnexpCom
     char*    q;
     int      l = strlen(Name);
 
-    if (Name[l - 1] != ']') {
+    if ((l < 1) || (Name[l - 1] != ']')) {
         *Erg = -2;
         return True;
     }
